@@ -272,7 +272,12 @@ func runScenario(t *testing.T, line string) string {
 					break
 				}
 				if !c.sent {
-					// not transmitted yet: its message ID is unknown, so nothing can match it by ID
+					// not transmitted yet: its message ID is unknown, so nothing can match it by ID, and a response
+					// cannot precede the request: acknowledgement / reset go out with a foreign ID, a piggybacked
+					// response is not injected at all
+					if f[0] == "pig" {
+						break
+					}
 					c = &call{id: c.id, mid: 65000}
 				}
 				switch f[0] {
@@ -284,7 +289,10 @@ func runScenario(t *testing.T, line string) string {
 					sc.inject(message.Acknowledgement, codes.Content, c.mid, tokenOf(c.id), f[2])
 				}
 			case "resp":
-				_, id := idArg()
+				c, id := idArg()
+				if c == nil || !c.sent {
+					break // a response cannot precede the request
+				}
 				typ := message.NonConfirmable
 				if f[2] == "con" {
 					typ = message.Confirmable
